@@ -130,11 +130,9 @@ def is_iter_ty(t):
 
 # public functions that hand hash order to their caller and are not estimator outputs; every workspace
 # caller is classified in turn (pass 2), so nothing is hidden by these entries
-DERIVED_OK = {
-    "dataset::Labels::labels": "dataset accessor (label set as a Vec); not an estimator output",
-    "dataset::Labels::combined_labels": "dataset accessor; not an estimator output",
-    "linfa::DatasetBase::one_vs_all": "dataset operation returning one view per label; not an estimator output",
-}
+# (empty since fix 7181a8d: Labels::labels / combined_labels used to be listed here as "dataset accessors"; their hash
+# order reached MultiClassModel's tie-break through one_vs_all, a genuine violation, and they now sort)
+DERIVED_OK = {}
 
 
 def is_internal(fn):
@@ -257,7 +255,8 @@ def rule_seed(ctx):
 
 PAR_NAMES = {"par_for_each", "par_map_collect", "par_map_assign_into", "par_iter", "par_iter_mut", "into_par_iter", "par_bridge",
              "par_chunks", "par_chunks_mut", "par_azip", "par_apply", "par_mapv_inplace", "par_map_inplace", "map_init", "join", "scope", "spawn"}
-PAR_EXCLUDED = {"k_means_para": "k-means|| initialiser: excluded by the property text"}
+PAR_EXCLUDED = {"k_means_para": "k-means|| initialiser: excluded by the property text",
+                "sample_subsequent_candidates": "candidate sampling of the k-means|| initialiser (its per-split generators are the 'per-thread streams' the property text excludes)"}
 
 
 def rule_par(ctx):
@@ -279,6 +278,35 @@ def rule_par(ctx):
                 continue
             is_par = d["krate"] in ("rayon", "rayon_core") or (d["krate"] == "ndarray" and (d["name"].startswith("par_") or "parallel" in d["path"]))
             if not is_par:
+                continue
+            if d["name"] in ("map_init", "for_each_init", "map_with", "for_each_with", "fold_with", "try_for_each_init", "try_for_each_with", "flat_map_init") and n.get("k") == "MethodCall" and n["args"]:
+                # per-split state: rayon calls the init closure (or clones the value) once per *split*, and where the
+                # splits fall depends on the number of threads and on work stealing. State that influences the output
+                # - a random generator, a counter - makes the result schedule-dependent.
+                init = strip(n["args"][0])
+                src = None
+                for y in walk(init):
+                    dd = None
+                    if y.get("k") == "Call":
+                        f_ = strip(y["f"])
+                        dd = c.dfn(f_.get("def")) if f_.get("k") == "Path" else None
+                    elif y.get("k") == "MethodCall":
+                        dd = c.dfn(y.get("def"))
+                    if dd and (dd["name"] in ("seed_from_u64", "from_seed", "from_rng", "thread_rng", "from_entropy", "fetch_add", "fetch_sub", "gen", "gen_range", "next_u64", "next_u32") or (dd["name"] == "clone" and re.search(r"Rng|rng|Xoshiro|StdRng|SmallRng", c.ty(y.get("t")) or ""))):
+                        src = dd["name"]
+                        break
+                if src is None and init.get("k") != "Closure" and re.search(r"Rng|Xoshiro|StdRng|SmallRng", c.ty(init.get("t")) or ""):
+                    src = "a cloned generator"
+                idx += 1
+                inst = "%s : #%d %s" % (key, idx, d["name"])
+                res.instance(inst)
+                if any(sym in key or sym in fn["d"]["path"] for sym in PAR_EXCLUDED):
+                    res.ok()
+                    res.info.append("excluded by the property: %s" % inst)
+                elif src is not None:
+                    res.violate(inst + " : generator-per-split", "`%s` creates its state (%s) once per split of the parallel range, and the splits depend on the number of threads and on work stealing: the random number an element receives - and everything computed from it - differs between runs with the same seed" % (d["name"], src), fn_loc(fn, n.get("ln")))
+                else:
+                    res.ok()
                 continue
             if d["name"] not in PAR_NAMES and not d["name"].startswith("par_"):
                 # adaptor/consumer inside a parallel chain: classified below when it is a reduction
